@@ -92,6 +92,11 @@ pub broadcast axiom fn axiom_string_ext(s1: String, s2: String)
     requires #[trigger] s1@ == #[trigger] s2@,
     ensures s1 == s2;
 
+/// every sequence of chars is the content of a String (chars are Unicode scalar values)
+pub uninterp spec fn str_of(v: Seq<char>) -> String;
+pub broadcast axiom fn axiom_str_of(v: Seq<char>)
+    ensures (#[trigger] str_of(v))@ == v;
+
 pub broadcast axiom fn axiom_string_key_model()
     ensures #[trigger] vstd::std_specs::hash::obeys_key_model::<String>();
 
@@ -119,6 +124,7 @@ pub broadcast group group_verif_axioms {
     axiom_keys_disjoint_inputs_id,
     axiom_valid_id_no_sep,
     axiom_string_ext,
+    axiom_str_of,
     axiom_string_key_model,
     axiom_string_contains_borrowed,
     axiom_string_maps_borrowed,
@@ -142,6 +148,12 @@ pub open spec fn nbr_seq(dag: &GraphType, n: usize, d: Direction, s: Seq<usize>)
     &&& s.no_duplicates()
     &&& forall|m: usize| #![trigger s.contains(m)] #![trigger dag.is_nbr(n, d, m)]
         s.contains(m) <==> dag.is_nbr(n, d, m)
+}
+
+pub open spec fn all_edges_seq(dag: &GraphType, s: Seq<(usize, usize, &EdgeInfo)>) -> bool {
+    &&& forall|k: int| 0 <= k < s.len() ==> dag.has_edge((#[trigger] s[k]).0, s[k].1) && *s[k].2 == dag.edges()[(s[k].0, s[k].1)]
+    &&& forall|k: int, l: int| 0 <= k < l < s.len() ==> !((#[trigger] s[k]).0 == (#[trigger] s[l]).0 && s[k].1 == s[l].1)
+    &&& forall|a: usize, b: usize| #![trigger dag.has_edge(a, b)] dag.has_edge(a, b) ==> exists|k: int| 0 <= k < s.len() && (#[trigger] s[k]).0 == a && s[k].1 == b
 }
 
 impl GraphType {
@@ -203,6 +215,17 @@ impl GraphType {
             r.obeys_prophetic_iter_laws(),
             r.decrease().is_some(),
             nbr_seq(self, n, d, r.remaining()),
+    {
+        unimplemented!()
+    }
+
+    /// every edge exactly once, with its weight
+    #[verifier::external_body]
+    pub fn all_edges(&self) -> (r: std::vec::IntoIter<(usize, usize, &EdgeInfo)>)
+        ensures
+            r.obeys_prophetic_iter_laws(),
+            r.decrease().is_some(),
+            all_edges_seq(self, r.remaining()),
     {
         unimplemented!()
     }
@@ -269,4 +292,153 @@ impl<T> VecDeque<T> {
     {
         unimplemented!()
     }
+}
+
+// ---- strings (A-keys): str::contains / split_once / == are uninterpreted; their meaning on the
+//      three key shapes is axiomatised above / below.
+pub uninterp spec fn pat_view<P>(p: P) -> Seq<char>;
+pub broadcast axiom fn axiom_pat_str(p: &str)
+    ensures #[trigger] pat_view::<&str>(p) == p@;
+pub broadcast axiom fn axiom_pat_string(p: &String)
+    ensures #[trigger] pat_view::<&String>(p) == p@;
+
+pub uninterp spec fn str_contains(s: Seq<char>, p: Seq<char>) -> bool;
+pub uninterp spec fn str_split_once(s: Seq<char>, p: Seq<char>) -> Option<(Seq<char>, Seq<char>)>;
+pub uninterp spec fn str_ends_with(s: Seq<char>, p: Seq<char>) -> bool;
+
+pub open spec fn SEP() -> Seq<char> { "!!!"@ }
+pub open spec fn MULTI() -> Seq<char> { ":::"@ }
+pub broadcast proof fn lemma_sep_lit()
+    ensures #[trigger] SEP() == "!!!"@, #[trigger] MULTI() == ":::"@,
+{
+}
+
+pub assume_specification<P: core::str::pattern::Pattern>[ str::contains::<P> ](s: &str, p: P) -> (r: bool)
+    ensures r == str_contains(s@, pat_view(p));
+
+pub assume_specification<'a, P: core::str::pattern::Pattern>[ str::split_once::<P> ](s: &'a str, p: P)
+    -> (r: Option<(&'a str, &'a str)>)
+    ensures
+        r is Some <==> str_split_once(s@, pat_view(p)) is Some,
+        r is Some ==> r.unwrap().0@ == str_split_once(s@, pat_view(p)).unwrap().0
+            && r.unwrap().1@ == str_split_once(s@, pat_view(p)).unwrap().1;
+
+/// Display text of a String is the string itself (vstd has the same axiom for str) (A-keys)
+pub broadcast axiom fn axiom_to_string_string(t: &String, s: String)
+    ensures #[trigger] vstd::string::to_string_from_display_ensures::<String>(t, s) <==> s@ == t@;
+
+pub assume_specification[ <String as PartialEq<str>>::eq ](a: &String, b: &str) -> (r: bool)
+    ensures r == (a@ == b@);
+
+pub broadcast axiom fn axiom_sep_contains(s: Seq<char>)
+    ensures #[trigger] str_contains(s, "!!!"@) == str_contains_sep(s);
+pub broadcast axiom fn axiom_multi_contains(s: Seq<char>)
+    ensures #[trigger] str_contains(s, ":::"@) == str_contains_multi(s);
+pub broadcast axiom fn axiom_split_edge(a: Seq<char>, b: Seq<char>)
+    requires valid_id(a), valid_id(b),
+    ensures #[trigger] str_split_once(key_edge(a, b), "!!!"@) == Some((a, b));
+pub broadcast axiom fn axiom_split_inputs(a: Seq<char>)
+    requires valid_id(a),
+    ensures #[trigger] str_split_once(key_inputs(a), "!!!"@) == Some((a, Seq::<char>::empty()));
+pub broadcast axiom fn axiom_split_some(s: Seq<char>)
+    requires str_contains_sep(s),
+    ensures (#[trigger] str_split_once(s, "!!!"@)) is Some;
+
+pub broadcast group group_verif_str_axioms {
+    axiom_to_string_string,
+    axiom_pat_str,
+    axiom_pat_string,
+    axiom_sep_contains,
+    axiom_multi_contains,
+    axiom_split_edge,
+    axiom_split_inputs,
+    axiom_split_some,
+}
+
+// ---- R6: `X.drain().filter(closure).collect()` on a HashMap<String, String> (A-adapters)
+#[verifier::external_body]
+fn verif_drain_filter_collect<F: Fn(&(String, String)) -> bool>(m: &mut HashMap<String, String>, f: F)
+    -> (r: HashMap<String, String>)
+    requires
+        forall|kv: &(String, String)| old(m)@.contains_key(kv.0) && old(m)@[kv.0] == kv.1 ==> #[trigger] f.requires((kv,)),
+    ensures
+        forall|k: String| #[trigger] r@.contains_key(k) ==> old(m)@.contains_key(k) && r@[k] == old(m)@[k]
+            && f.ensures((&(k, r@[k]),), true),
+        forall|k: String| #[trigger] old(m)@.contains_key(k) && !r@.contains_key(k)
+            ==> f.ensures((&(k, old(m)@[k]),), false),
+{
+    unimplemented!()
+}
+
+// ---- R8(a): the part -> owning present job map built at the top of new_history
+/// the output names a (multi-output) job id stands for: the pieces between ":::"
+pub uninterp spec fn parts(id: Seq<char>) -> Set<Seq<char>>;
+
+pub broadcast axiom fn axiom_parts_single(id: Seq<char>)
+    requires !str_contains_multi(id),
+    ensures #[trigger] parts(id) == set![id];
+
+#[verifier::external_body]
+pub struct VerifPartsMap {
+    _p: core::marker::PhantomData<()>,
+}
+
+impl VerifPartsMap {
+    /// part -> id of the present job that was inserted last for it
+    pub uninterp spec fn owner(&self, part: Seq<char>) -> Option<Seq<char>>;
+
+    #[verifier::external_body]
+    pub fn get(&self, part: &str) -> (r: Option<&String>)
+        ensures
+            r is Some <==> self.owner(part@) is Some,
+            r is Some ==> r.unwrap()@ == self.owner(part@).unwrap(),
+    {
+        unimplemented!()
+    }
+}
+
+#[verifier::external_body]
+fn verif_multi_parts_to_jobs(jobs: &Vec<NodeInfo>) -> (r: VerifPartsMap)
+    ensures
+        forall|p: Seq<char>| #![trigger r.owner(p)] r.owner(p) is Some ==> exists|i: int| 0 <= i < jobs@.len()
+            && #[trigger] jobs@[i].job_id@ == r.owner(p).unwrap() && parts(jobs@[i].job_id@).contains(p),
+        forall|i: int, p: Seq<char>| 0 <= i < jobs@.len() && #[trigger] parts(jobs@[i].job_id@).contains(p)
+            ==> r.owner(p) is Some,
+{
+    unimplemented!()
+}
+
+// ---- A-derive: #[derive(PartialEq)] on the engine's enums is structural equality.
+//      (Cross-checked on the untouched source by the Kani full-domain harness, tier thorough.)
+impl vstd::std_specs::cmp::PartialEqSpecImpl for JobKind {
+    open spec fn obeys_eq_spec() -> bool { true }
+    open spec fn eq_spec(&self, other: &JobKind) -> bool { *self == *other }
+}
+impl vstd::std_specs::cmp::PartialEqSpecImpl for ValidationStatus {
+    open spec fn obeys_eq_spec() -> bool { true }
+    open spec fn eq_spec(&self, other: &ValidationStatus) -> bool { *self == *other }
+}
+impl vstd::std_specs::cmp::PartialEqSpecImpl for Required {
+    open spec fn obeys_eq_spec() -> bool { true }
+    open spec fn eq_spec(&self, other: &Required) -> bool { *self == *other }
+}
+impl vstd::std_specs::cmp::PartialEqSpecImpl for JobStateAlways {
+    open spec fn obeys_eq_spec() -> bool { true }
+    open spec fn eq_spec(&self, other: &JobStateAlways) -> bool { *self == *other }
+}
+impl vstd::std_specs::cmp::PartialEqSpecImpl for JobStateOutput {
+    open spec fn obeys_eq_spec() -> bool { true }
+    open spec fn eq_spec(&self, other: &JobStateOutput) -> bool { *self == *other }
+}
+impl vstd::std_specs::cmp::PartialEqSpecImpl for JobStateEphemeral {
+    open spec fn obeys_eq_spec() -> bool { true }
+    open spec fn eq_spec(&self, other: &JobStateEphemeral) -> bool { *self == *other }
+}
+impl vstd::std_specs::cmp::PartialEqSpecImpl for JobState {
+    open spec fn obeys_eq_spec() -> bool { true }
+    open spec fn eq_spec(&self, other: &JobState) -> bool { *self == *other }
+}
+impl vstd::std_specs::cmp::PartialEqSpecImpl for SignalKind {
+    open spec fn obeys_eq_spec() -> bool { true }
+    open spec fn eq_spec(&self, other: &SignalKind) -> bool { *self == *other }
 }
